@@ -124,8 +124,10 @@ Fixpoint infer_e (e : sexpr) : eres :=
           match infer_e b with
           | Err k => Err k
           | Ok (bv, bd) =>
-              match dim_pow_expr bd xv with
-              | Some d => Ok (match bv, xv with VSym, _ | _, VSym => VSym | _, _ => vpow bv xv end, d)
+              (* a bare quantity in the exponent stands for its value (repo commit "a bare quantity in an exponent ...") *)
+              let xe := match x with SQty v _ => v | _ => xv end in
+              match dim_pow_expr bd xe with
+              | Some d => Ok (match bv, xe with VSym, _ | _, VSym => VSym | _, _ => vpow bv xe end, d)
               | None => Err E_UNSUPPORTED
               end
           end
